@@ -35,10 +35,10 @@ def _curves(r, sis):
     return r[1:3] if sis else r[1:4]
 
 
-def _call_graph(EoN, name, G, tau, gamma, rho, tmax, tcount):
+def _call_graph(EoN, name, G, tau, gamma, rho, tmax, tcount, tmin=0):
     """entry point on G with uniform rho; homogeneous mean-field SIR has a direct-call fallback
     (its from_graph wrapper is a recorded finding)"""
-    return O.call(getattr(EoN, name), G, tau, gamma, rho=rho, tmax=tmax, tcount=tcount)
+    return O.call(getattr(EoN, name), G, tau, gamma, rho=rho, tmin=tmin, tmax=tmax, tcount=tcount)
 
 
 def case_equiv(EoN, p):
@@ -55,9 +55,9 @@ def case_equiv(EoN, p):
             n = sum(d for _, d in G.degree()) / N
             f = EoN.SIS_homogeneous_meanfield if sis else EoN.SIR_homogeneous_meanfield
             args = ((1 - p['rho']) * N, p['rho'] * N, n, p['tau'], p['gamma']) if sis else ((1 - p['rho']) * N, p['rho'] * N, 0, n, p['tau'], p['gamma'])
-            st, r = O.call(f, *args, tmax=p['tmax'], tcount=p['tcount'])
+            st, r = O.call(f, *args, tmin=p.get('tmin', 0), tmax=p['tmax'], tcount=p['tcount'])
         else:
-            st, r = _call_graph(EoN, name, H, p['tau'], p['gamma'], p['rho'], p['tmax'], p['tcount'])
+            st, r = _call_graph(EoN, name, H, p['tau'], p['gamma'], p['rho'], p['tmax'], p['tcount'], p.get('tmin', 0))
         if st != 'ok':
             return 'CRASH %s %s' % (name, r)
         res.append(r)
@@ -77,8 +77,8 @@ def case_prefmix(EoN, p):
     Pnk = {k1: {k2: k2 * Pk[k2] / kave for k2 in Pk} for k1 in Pk}
     psi, psiP = O.vpoly_from_Pk(Pk)
     if p['kind'] == 'cts':
-        a = O.call(EoN.EBCM_pref_mix, N, Pk, Pnk, p['tau'], p['gamma'], rho=rho, tmax=p['tmax'], tcount=p['tcount'])
-        b = O.call(EoN.EBCM_uniform_introduction, N, psi, psiP, p['tau'], p['gamma'], rho, tmax=p['tmax'], tcount=p['tcount'])
+        a = O.call(EoN.EBCM_pref_mix, N, Pk, Pnk, p['tau'], p['gamma'], rho=rho, tmin=p.get('tmin', 0), tmax=p['tmax'], tcount=p['tcount'])
+        b = O.call(EoN.EBCM_uniform_introduction, N, psi, psiP, p['tau'], p['gamma'], rho, tmin=p.get('tmin', 0), tmax=p['tmax'], tcount=p['tcount'])
     else:
         a = O.call(EoN.EBCM_pref_mix_discrete, N, Pk, Pnk, p['p'], rho=rho, tmax=p['tmaxd'])
         b = O.call(EoN.EBCM_discrete_uniform_introduction, N, psi, psiP, p['p'], rho, tmax=p['tmaxd'])
@@ -212,7 +212,10 @@ REG_MF = ['heterogeneous_meanfield_from_graph', 'individual_based', 'homogeneous
 def oracle_cases(rng, tier):
     thorough = tier == 'thorough'
     cases = []
-    rates = lambda: dict(tau=rng.choice([0.3, 0.7, 1.5]), gamma=rng.choice([0.5, 1.0]), rho=rng.choice([0.05, 0.1, 0.25]), tmax=5.0, tcount=11)
+    def rates():
+        # the solutions are time-translation invariant: a start time tmin != 0 must shift every curve alike
+        tmin = rng.choice([0, 0, 2.5, -1.5, 3])
+        return dict(tau=rng.choice([0.3, 0.7, 1.5]), gamma=rng.choice([0.5, 1.0]), rho=rng.choice([0.05, 0.1, 0.25]), tmin=tmin, tmax=tmin + 5.0, tcount=11)
     # (a) SIR hierarchy on random degree distributions, uniform rho
     for i in range(40 if thorough else 3):
         degs = rng.choice([(1, 2, 2, 3, 3, 4, 5), (1, 1, 2, 6), (2, 3, 4), (1, 3, 3, 5, 7), (0, 1, 2, 3)])
